@@ -135,7 +135,7 @@ PartsS(name, v) == LET sc == Schema[name] IN Cat([i \in 1..Len(sc) |-> PartsF(sc
 D(v, p, e, h) == [v |-> v, p |-> p, e |-> e, h |-> h]
 Fail(e) == D(<<>>, 0, e, <<>>)
 Lift(r) == D(r.v, r.p, r.e, <<>>)
-Min(a, b) == IF a < b THEN a ELSE b
+MinI(a, b) == IF a < b THEN a ELSE b
 
 DecKey(s, L, pos) ==
     LET r == DecVB(s, L, pos) IN
@@ -148,7 +148,7 @@ DecKey(s, L, pos) ==
 DecCount(c, s, L, pos) == IF c = "vu" THEN DecVU(s, L, pos)
                           ELSE DecFix(s, L, pos, IF c = "u16" THEN 2 ELSE IF c = "u32" THEN 4 ELSE 8)
 (* loop bound: every element consumes at least one byte, so L + 1 iterations always run into the end *)
-Iter(cv, L) == IF Huge(cv) THEN L + 1 ELSE Min(ToInt(cv), L + 1)
+Iter(cv, L) == IF Huge(cv) THEN L + 1 ELSE MinI(ToInt(cv), L + 1)
 AllocPanics(cv) == Len(cv) = 8 /\ ~HiZero(cv, 7)       \* make([]Sig, l): l * 56 beyond the allocator's limit (>= 2^48 is certain)
 AllocRisky(cv)  == Len(cv) = 8 /\ Huge(cv) /\ HiZero(cv, 7)   \* would really try to allocate gigabytes: never generated
 
